@@ -38,10 +38,7 @@ type specErr string
 func specFail(f string, a ...any) { panic(specErr(fmt.Sprintf(f, a...))) }
 
 func (fc *FuncCtx) funcEnv(st *State) *Env {
-	env := &Env{fc: fc, vars: map[string]Val{}, lets: map[string]Expr{}, st: st, old: fc.init, pkg: fc.Fn.Pkg.Pkg, fn: fc.Fn}
-	if fc.Fn.Pkg == nil {
-		env.pkg = fc.pkgOf()
-	}
+	env := &Env{fc: fc, vars: map[string]Val{}, lets: map[string]Expr{}, st: st, old: fc.init, pkg: fc.pkgOf(), fn: fc.Fn}
 	for k, v := range fc.params {
 		env.vars[k] = v
 	}
@@ -289,6 +286,12 @@ func (fc *FuncCtx) evalIdent(env *Env, name string) Val {
 					return Val{T: r, Ty: a.Type()}
 				}
 				et := a.Type().Underlying().(*types.Pointer).Elem()
+				if env.st == fc.init {
+					// entry state: a parameter's variable holds the argument
+					if pn, ok := fc.paramAlloc[a]; ok {
+						return fc.params[pn]
+					}
+				}
 				return Val{T: fc.get(env.st, fc.cellComp(a)), Ty: et}
 			}
 		}
@@ -463,7 +466,7 @@ func (fc *FuncCtx) evalIndex(env *Env, x EIndex) Val {
 	case *types.Slice:
 		i := fc.evalInt(env, x.I)
 		ek := fc.elemComp(u.Elem())
-		return Val{T: "(select (select " + fc.get(env.st, ek) + " (s-base " + v.T + ")) (+ (s-off " + v.T + ") " + i + "))", Ty: u.Elem()}
+		return Val{T: fc.at(u.Elem(), fc.get(env.st, ek), v.T, i), Ty: u.Elem()}
 	case *types.Map:
 		k := fc.eval(env, x.I)
 		_, vk := fc.mapComps(u)
@@ -618,6 +621,9 @@ func (fc *FuncCtx) evalCall(env *Env, c ECall) Val {
 	case "isnil":
 		need(1)
 		v := arg(0)
+		if v.LV != nil && v.T == "" {
+			return mathBool("false")
+		}
 		switch v.sort(fc) {
 		case "Slice":
 			return mathBool("(= (s-base " + v.T + ") 0)")
@@ -654,6 +660,29 @@ func (fc *FuncCtx) evalCall(env *Env, c ECall) Val {
 		}
 		_, box, _ := fc.S.Box(v.Ty)
 		return Val{T: "(" + box + " " + v.T + ")", Ty: types.NewInterfaceType(nil, nil)}
+	case "unchanged", "unchangedOld":
+		// unchanged(elems(T) | fields(T.f), loc...): every location of the component that was
+		// allocated in the reference state (loop entry inside an invariant, function entry
+		// otherwise) and is not one of the listed locations has its reference value.
+		if len(c.Args) < 1 {
+			specFail("unchanged needs a component")
+		}
+		ref := env.old
+		if env.pre != nil && id.Name == "unchanged" {
+			ref = env.pre
+		}
+		renv := *env
+		renv.st = ref
+		comps := fc.parseModifies(&renv, []string{c.Args[0].String()})
+		var locs []modLoc
+		for _, a := range c.Args[1:] {
+			locs = append(locs, fc.parseModifies(&renv, []string{exprText(a)})...)
+		}
+		var parts []string
+		for _, cm := range comps {
+			parts = append(parts, fc.frameFormula(cm.comp, ref, env.st, fc.next(ref), locs))
+		}
+		return mathBool(and(parts...))
 	case "strlen":
 		need(1)
 		return mathInt("(strlen " + arg(0).T + ")")
@@ -798,7 +827,7 @@ func (fc *FuncCtx) callPure(env *Env, pf *PureFunc, args []Val) Val {
 	if ppkg == nil {
 		ppkg = env.pkg
 	}
-	if pf.Body != nil {
+	if pf.Body != nil && !pf.Opaque {
 		e2 := &Env{fc: fc, vars: map[string]Val{}, lets: map[string]Expr{}, st: env.st, old: env.old, pre: env.pre, pkg: ppkg, depth: env.depth + 1}
 		if e2.depth > 40 {
 			specFail("pure function recursion in %s", pf.Name)
@@ -819,6 +848,25 @@ func (fc *FuncCtx) callPure(env *Env, pf *PureFunc, args []Val) Val {
 		}
 		fc.specHdr = append(fc.specHdr, fmt.Sprintf("(declare-fun %s (%s) %s)", name, strings.Join(ps, " "), fc.sortOfTypeExpr(pf.Result, ppkg)))
 		fc.emitAxiomsMentioning(pf.Name)
+		if pf.Opaque && pf.Body != nil {
+			// definitional axiom; the body must not depend on the program state
+			e2 := &Env{fc: fc, vars: map[string]Val{}, lets: map[string]Expr{}, st: fc.init, old: fc.init, pkg: ppkg}
+			var binds, bn []string
+			for i, p := range pf.Params {
+				n := fmt.Sprintf("o%d?%s", i, sanitize(pf.Name))
+				so := fc.sortOfTypeExpr(p.Type, ppkg)
+				binds = append(binds, "("+n+" "+so+")")
+				bn = append(bn, n)
+				if p.Type.Kind == "name" && p.Type.Name == "mathint" {
+					e2.vars[p.Name] = mathInt(n)
+				} else {
+					e2.vars[p.Name] = Val{T: n, Ty: fc.resolveType(p.Type, ppkg)}
+				}
+			}
+			body := fc.eval(e2, pf.Body)
+			app := "(" + name + " " + strings.Join(bn, " ") + ")"
+			fc.specHdr = append(fc.specHdr, "(assert (forall ("+strings.Join(binds, " ")+") (! (= "+app+" "+body.T+") :pattern ("+app+"))))")
+		}
 	}
 	var ts []string
 	for _, a := range args {
@@ -910,4 +958,34 @@ func mentions(e Expr, name string) bool {
 	}
 	walk(e)
 	return found
+}
+
+// exprText renders an expression back to contract syntax (for modifies-style arguments).
+func exprText(e Expr) string {
+	switch x := e.(type) {
+	case EBin:
+		return exprText(x.X) + " " + x.Op + " " + exprText(x.Y)
+	case ESlice:
+		lo, hi := "", ""
+		if x.Lo != nil {
+			lo = exprText(x.Lo)
+		}
+		if x.Hi != nil {
+			hi = exprText(x.Hi)
+		}
+		return exprText(x.X) + "[" + lo + ":" + hi + "]"
+	case EIndex:
+		return exprText(x.X) + "[" + exprText(x.I) + "]"
+	case ESel:
+		return exprText(x.X) + "." + x.Name
+	case ECall:
+		var a []string
+		for _, y := range x.Args {
+			a = append(a, exprText(y))
+		}
+		return exprText(x.Fn) + "(" + strings.Join(a, ", ") + ")"
+	case EUn:
+		return x.Op + exprText(x.X)
+	}
+	return e.String()
 }
